@@ -2,6 +2,7 @@ import BigDec.Model.Roots
 import BigDec.Proofs.Prec
 import Mathlib.Tactic.Ring
 import Mathlib.Tactic.Linarith
+import BigDec.Proofs.SqrtReal
 /-! # C10 — square root is the true root rounded as the context dictates
 
 `implSqrt` models the repaired `impl_sqrt`: shift to an even total scale with at least
@@ -101,5 +102,100 @@ theorem C10_implSqrt_spec (n : Nat) (scale : Int) (p : Nat) (m : Mode) (r : Dec)
     rfl
   rw [hx] at h
   exact withPrecisionRound_spec _ _ _ _ h
+
+/-- a shifted radicand with at least `2(p+5)` digits has a floor root of at least `p+5` digits -/
+theorem sqrt_digits (D p : Nat) (hD : 2 * (p + 5) ≤ numDigits D) : p + 5 ≤ numDigits (Nat.sqrt D) := by
+  have hD0 : D ≠ 0 := by
+    intro h; rw [h, numDigits_zero] at hD; omega
+  have h1 := pow_numDigits_le D hD0
+  have h2 : 10 ^ (2 * (p + 4)) ≤ 10 ^ (numDigits D - 1) := Nat.pow_le_pow_right (by norm_num) (by omega)
+  have h3 : 10 ^ (p + 4) * 10 ^ (p + 4) ≤ D := by
+    rw [← pow_add, show p + 4 + (p + 4) = 2 * (p + 4) by ring]; omega
+  have h4 : 10 ^ (p + 4) ≤ Nat.sqrt D := Nat.le_sqrt.mpr h3
+  have h5 := numDigits_mono h4
+  rw [numDigits_pow] at h5
+  omega
+
+/-- **the real-number reading of `sqrt`** (inexact case): whatever `impl_sqrt` returns for a radicand
+    whose shifted integer `D` is not a perfect square is the true real root `√(n·10^-scale)` (Mathlib's
+    `Real.sqrt`) rounded at the position of the result's own last digit - floor for `Down`/`Floor`,
+    ceiling for `Up`/`Ceiling`, nearest for the three half modes (a tie is impossible: the root is
+    irrational).  (The exact case is `C10_exact_branch`: the root itself, rounded by C07/C06.) -/
+theorem C10_sqrt_real (n : Nat) (scale : Int) (p : Nat) (m : Mode) (r : Dec) (hn : 0 < n) (hp : 1 ≤ p)
+    (h : implSqrt n scale p m = some r)
+    (hns : let e0 := 2 * (p + sqrtExtraDigits) - numDigits n
+           let e := if (scale + e0) % 2 ≠ 0 then e0 + 1 else e0
+           Nat.sqrt (n * 10 ^ e) * Nat.sqrt (n * 10 ^ e) ≠ n * 10 ^ e) :
+    r.int = Spec.realRound m (Real.sqrt ((n : ℝ) * (10 : ℝ) ^ (-scale)) * (10 : ℝ) ^ r.scale) := by
+  have hspec := C10_implSqrt_spec n scale p m r h
+  simp only at hspec hns
+  generalize he0 : 2 * (p + sqrtExtraDigits) - numDigits n = e0 at hspec hns
+  have heven := C10_even_scale scale e0
+  generalize he : (if (scale + (e0 : Int)) % 2 ≠ 0 then e0 + 1 else e0 : Nat) = e at hspec hns heven
+  have hege : e0 ≤ e := by rw [← he]; split <;> omega
+  rw [if_pos hns] at hspec
+  -- digits of D, of its root, of the sticky-extended root
+  have hD : 2 * (p + 5) ≤ numDigits (n * 10 ^ e) := by
+    rw [numDigits_mul_pow n e (by omega)]
+    have : sqrtExtraDigits = 5 := rfl
+    omega
+  have hRd := sqrt_digits (n * 10 ^ e) p hD
+  generalize hRdef : Nat.sqrt (n * 10 ^ e) = R at hspec hns hRd
+  have hR1 : 1 ≤ R := by
+    by_contra hc
+    have : R = 0 := by omega
+    rw [this, numDigits_zero] at hRd; omega
+  have hW : numDigits (R * 10 + 1) = numDigits R + 1 := by
+    conv => lhs; unfold numDigits
+    rw [if_neg (by omega)]
+    have : (R * 10 + 1) / 10 = R := by omega
+    rw [this]
+  -- unfold the declarative rounding
+  unfold Spec.roundToPrec Spec.roundToScale at hspec
+  simp only [Int.natAbs_natCast, Spec.numDigits_eq_model] at hspec
+  rw [hW] at hspec
+  obtain ⟨k, hk⟩ : ∃ k : Nat, numDigits R + 1 = p + k ∧ 6 ≤ k := ⟨numDigits R + 1 - p, by omega, by omega⟩
+  have hns' : ¬ ((scale + (e : Int)) / 2 + 1 + ((p : Int) - ((numDigits R + 1 : Nat) : Int)) ≥ (scale + (e : Int)) / 2 + 1) := by
+    push_cast; omega
+  rw [if_neg hns'] at hspec
+  have hkk : ((scale + (e : Int)) / 2 + 1 - ((scale + (e : Int)) / 2 + 1 + ((p : Int) - ((numDigits R + 1 : Nat) : Int)))).toNat = k := by
+    push_cast; omega
+  rw [hkk] at hspec
+  have hneg : decide (((R * 10 + 1 : Nat) : Int) < 0) = false := by simp; omega
+  have hsg : Spec.sgn ((R * 10 + 1 : Nat) : Int) = 1 := by unfold Spec.sgn; rw [if_neg (by omega)]
+  rw [hneg, hsg, one_mul] at hspec
+  -- the real root
+  obtain ⟨b1, b2⟩ := Spec.real_sqrt_between (n * 10 ^ e) (by rw [hRdef]; exact hns)
+  rw [hRdef] at b1 b2
+  have hY1 : (10 * R : ℝ) < 10 * Real.sqrt ((n * 10 ^ e : Nat) : ℝ) := by linarith
+  have hY2 : 10 * Real.sqrt ((n * 10 ^ e : Nat) : ℝ) < 10 * R + 10 := by linarith
+  have hst := Spec.sticky_round_real m R k (by omega) _ hY1 hY2
+  have hcomm : R * 10 + 1 = 10 * R + 1 := by ring
+  rw [hspec]
+  simp only
+  rw [hcomm, hst]
+  congr 1
+  -- √(n·10^-scale) · 10^(rs + 1 - k) = 10·√D / 10^k
+  obtain ⟨rs, hrs⟩ : ∃ rs : Int, scale + (e : Int) = 2 * rs := ⟨(scale + (e : Int)) / 2, by omega⟩
+  have hrs2 : (scale + (e : Int)) / 2 = rs := by omega
+  rw [hrs2]
+  have hscale : (scale + (e : Int)) / 2 + 1 + ((p : Int) - ((numDigits R + 1 : Nat) : Int)) = rs + 1 - k := by
+    rw [hrs2]; push_cast; omega
+  have hval : (n : ℝ) * (10 : ℝ) ^ (-scale) = ((n * 10 ^ e : Nat) : ℝ) * ((10 : ℝ) ^ (-rs)) ^ 2 := by
+    have : -scale = (e : Int) + (-rs + -rs) := by omega
+    rw [this, zpow_add₀ (by norm_num : (10 : ℝ) ≠ 0), zpow_add₀ (by norm_num : (10 : ℝ) ≠ 0), zpow_natCast]
+    push_cast; ring
+  have hpos : (0 : ℝ) ≤ (10 : ℝ) ^ (-rs) := (zpow_pos (by norm_num) _).le
+  rw [hval, Real.sqrt_mul (by positivity), Real.sqrt_sq hpos]
+  have hfin : rs + 1 + ((p : Int) - ((numDigits R + 1 : Nat) : Int)) = rs + 1 - k := by push_cast; omega
+  rw [hfin]
+  have : (10 : ℝ) ^ (rs + 1 - (k : Int)) = (10 : ℝ) ^ rs * 10 / (10 : ℝ) ^ k := by
+    rw [zpow_sub₀ (by norm_num : (10 : ℝ) ≠ 0), zpow_add₀ (by norm_num : (10 : ℝ) ≠ 0), zpow_one, zpow_natCast]
+  rw [this]
+  have h10 : (10 : ℝ) ^ (-rs) * (10 : ℝ) ^ rs = 1 := by
+    rw [← zpow_add₀ (by norm_num : (10 : ℝ) ≠ 0)]; simp
+  rw [show Real.sqrt ((n * 10 ^ e : Nat) : ℝ) * (10 : ℝ) ^ (-rs) * ((10 : ℝ) ^ rs * 10 / (10 : ℝ) ^ k)
+      = Real.sqrt ((n * 10 ^ e : Nat) : ℝ) * ((10 : ℝ) ^ (-rs) * (10 : ℝ) ^ rs) * 10 / (10 : ℝ) ^ k by ring, h10]
+  ring
 
 end BigDec
